@@ -145,6 +145,9 @@ def cases(tier, inst):
                         continue
                     for caching in ((True, False) if n <= 2 or tier == "thorough" else (True,)):
                         yield ("kjoin", node, kinds, base_binds, caching)
+                        # both variables range over the SAME collection: (x=a, y=b) and (x=b, y=a) are two assignments
+                        if caching and (n <= 3 or tier == "thorough"):
+                            yield ("kjoin", node, kinds, base_binds, "xysame", caching)
                         # conclusions that name fewer variables than the branch conditions use
                         for pattern in ("xalt", "x"):
                             if n >= 2 and (caching or tier == "thorough"):
@@ -179,7 +182,7 @@ def kval(kind, j, xv, yv):
 def concludes_both(pattern, i, is_alternative):
     """which variables the conclusion of node i names: "xy" all of them; "xalt" only alternatives name y too (the base and
     the refinements conclude on x alone); "x" none of them names y"""
-    return pattern == "xy" or (pattern == "xalt" and is_alternative)
+    return pattern in ("xy", "xysame") or (pattern == "xalt" and is_alternative)
 
 
 def build_ktree(node, kinds, x, y, views, inst, pattern="xy", is_alternative=False):
@@ -215,6 +218,8 @@ def kjoin_make_and_eval_twice(case, inst):
         vals = list(itertools.product((1, 2), repeat=n))
         xs = [W.Item(p=inst.v(1), t=tuple(inst.v(v) for v in val), tag="x" + "".join(map(str, val))) for val in vals]
         ys = [W.Item(p=inst.v(1), t=tuple(inst.v(v) for v in val), tag="y" + "".join(map(str, val))) for val in vals]
+        if pattern == "xysame":
+            ys = xs
         exp = []
         for xo, xv in zip(xs, vals):
             for yo, yv in zip(ys, vals):
@@ -222,7 +227,7 @@ def kjoin_make_and_eval_twice(case, inst):
                 for tag in rdr(node, val):
                     both = concludes_both(pattern, tag, is_alt[tag])
                     exp.append(repr(("made", "Made", Q.norm(xo), Q.norm(inst.v(tag + 1)), Q.norm(yo if both else None))))
-        if pattern != "xy":
+        if pattern not in ("xy", "xysame"):
             exp = sorted(set(exp))     # a conclusion that names x alone: how often it is drawn per x is not prescribed
         exp.sort()
         try:
@@ -249,7 +254,7 @@ def kjoin_make_and_eval_twice(case, inst):
         for _ in range(2):
             try:
                 rows = sorted(repr(Q.norm(r)) for r in q.evaluate())
-                out.append(sorted(set(rows)) if pattern != "xy" else rows)
+                out.append(sorted(set(rows)) if pattern not in ("xy", "xysame") else rows)
             except Exception as e:
                 out.append(exc_obs(e))
         return out, exp
@@ -572,9 +577,10 @@ def describe(case, inst):
                    ("and_(x.p == y.p, <condition of node 0>)" if base_binds else "<condition of node 0>")) + "));\n"
                 "# nested `with refinement(<cond>)` / `with alternative(<cond>)` blocks as in the tree, conclusions "
                 "Add(views, Made(a=x, b=i+1, c=y))" + {"xy": "", "xalt": "; base and refinements conclude Made(a=x, b=i+1) only",
-                                                      "x": "; every conclusion is Made(a=x, b=i+1) only"}[pattern] + "\n"
+                                                      "x": "; every conclusion is Made(a=x, b=i+1) only",
+                                                      "xysame": "; ys IS xs (both variables over one collection)"}[pattern] + "\n"
                 "rows1 = list(q.evaluate()); rows2 = list(q.evaluate())   # expected: ripple-down semantics per pair (x, y)"
-                + (" (compared as sets)" if pattern != "xy" else ""))
+                + (" (compared as sets)" if pattern not in ("xy", "xysame") else ""))
     if case[0] == "zjoin":
         _, node, kinds, caching = case
         return (f"{'enable' if caching else 'disable'}_caching()\n# rule tree {node} (node = (index, refinement, alternative)); "
